@@ -27,7 +27,7 @@ import typing as t
 
 from . import astq
 from .cfg import cfg_of
-from .loader import BuiltinClass, ClassInfo, FuncInfo, Module, Repo, dotted, norm, walk_no_nested
+from .loader import AnalysisError, BuiltinClass, ClassInfo, FuncInfo, Module, Repo, dotted, norm, walk_no_nested
 
 # ---------------------------------------------------------------------
 # exception lattice
@@ -663,6 +663,16 @@ class Effects:
 
 INF = 10**9
 
+
+class _NoneSentinel:
+    """the value None among the alternatives of an `int | None` expression (Flow.int_alts)."""
+
+    def __repr__(self) -> str:
+        return "NONE"
+
+
+NONE: t.Any = _NoneSentinel()
+
 from .dataflow import ReachingDefs, bound_in_enclosing_comp  # noqa: E402
 from .fold import Folder, RegexConst, group_width, width  # noqa: E402
 from .guards import Aliases  # noqa: E402
@@ -776,6 +786,9 @@ class Flow:
         self._live: dict[tuple[int, str], set[str]] = {}
         self._li: dict[str, dict[str, str]] = {}
         self._callee: dict[tuple[str, int], tuple[ast.AST, list[FuncInfo]]] = {}
+        self.sim: t.Any = None  # PathSim over this flow (set by the rule module): path-wise facts as a second opinion
+        self._sim_lb: dict[tuple[str, str, int], int | None] = {}
+        self._in_sim = False
 
     # -- per function caches ---------------------------------------------
     def cfg(self, fi: FuncInfo):
@@ -1592,116 +1605,210 @@ class Flow:
 
     # -- lower bound of an int ------------------------------------------------
     def int_lb(self, fi: FuncInfo, e: ast.AST | None, node, st: St = St()) -> int | None:
-        if e is None:
+        """lower bound of the int e at node (None = unknown, INF = no value reaches)."""
+        alts = self.int_alts(fi, e, node, st)
+        if any(v is None or v is NONE for v, _ in alts):
             return None
+        return min([v for v, _ in alts], default=INF)
+
+    def int_alts(self, fi: FuncInfo, e: ast.AST | None, node, st: St = St()) -> list[tuple[int | None, bool]]:
+        """the int e at node as a union of alternatives (v, exact): exactly the constant v, or some value >= v (v None:
+        unknown).  Sentinels keep their identity - `find` is -1 or >= 0, a helper returns -1 or an index >= 2 - so
+        that a dominating `!= -1` / `>= 0` / `< 0` / truthiness test in any spelling removes the sentinel instead of
+        merely nudging one bound."""
+        if e is None:
+            return [(None, False)]
         key = ("int", fi.fq, ("n:" + e.id) if isinstance(e, ast.Name) else id(e), node.id if node is not None else -1, tuple(id(c[1]) for c in st.cs))
         if key in st.seen:
-            return INF
+            return [(INF, False)]
         if len(st.seen) > 400:
-            return None
+            return [(None, False)]
         st = st._replace(seen=st.seen | {key})
-        v = self._int_lb(fi, e, node, st)
+        alts = self._int_alts(fi, e, node, st)
         if node is not None and isinstance(e, (ast.Name, ast.Attribute, ast.NamedExpr)):
-            v = self._guard_int(fi, _unwalrus(e), node, v)
-        return v
+            alts = self._guard_alts(fi, _unwalrus(e), node, alts)
+        if isinstance(e, ast.Name) and node is not None and not st.cs and any(v is None or v is NONE for v, _ in alts):
+            lb = self._sim_int_lb(fi, e.id, node)
+            if lb is not None:
+                alts = [(lb, False)]
+        uniq = list(dict.fromkeys(alts))
+        if len(uniq) > 12:
+            uniq = [(None if any(v is None or v is NONE for v, _ in uniq) else min(v for v, _ in uniq), False)]
+        return uniq
 
-    def _int_lb(self, fi, e, node, st) -> int | None:
+    def _sim_int_lb(self, fi: FuncInfo, name: str, node) -> int | None:
+        """lower bound of the local int `name` whenever `node` is reached, from the path-wise facts (PathSim): holds on
+        every acyclic path from the function's entry, for every caller.  This follows what the reaching-definition walk
+        cannot: a value unpacked from a helper's result whose components are related (`found, end = scan(text)` /
+        `if found:`), bounds established by order comparisons between locals."""
+        sim = self.sim
+        if sim is None or self._in_sim or name not in sim.locals_of(fi):
+            return None
+        key = (fi.fq, name, node.id)
+        if key in self._sim_lb:
+            return self._sim_lb[key]
+        self._sim_lb[key] = None
+        if any(d.name == name for d in self.rd(fi).gen.get(node.id, [])):
+            return None  # (re)bound by the node itself
+        lows: list[int | None] = []
+
+        def on_goal(n, ps) -> None:
+            b = ps.db.get((ZERO, name))
+            if ps.null.get(name) is not False or b is None:
+                lows.append(None)
+            else:
+                lows.append(-b[0] + (1 if b[1] and name in ps.ints else 0))
+
+        save = (sim.steps, sim.cur_node, sim.call_tag, self.cur, self.site_ast)
+        self._in_sim = True
+        try:
+            sim.steps, sim.call_tag = 0, None
+            self.cur, self.site_ast = None, None
+            lim, sim.LIMIT = sim.LIMIT, 20000
+            try:
+                sim.walk(fi, [node], on_goal)
+            finally:
+                sim.LIMIT = lim
+        except AnalysisError:
+            lows = [None]
+        finally:
+            sim.steps, sim.cur_node, sim.call_tag, self.cur, self.site_ast = save
+            self._in_sim = False
+        res = None if not lows or any(v is None for v in lows) else min(lows)
+        self._sim_lb[key] = res
+        return res
+
+    def _int_alts(self, fi, e, node, st) -> list[tuple[int | None, bool]]:
+        unknown: list[tuple[int | None, bool]] = [(None, False)]
         c = const_int(e)
         if c is not None:
-            return c
+            return [(c, True)]
+        if isinstance(e, ast.Constant) and e.value is None:
+            return [(NONE, True)]  # the `not found` sentinel of an `int | None` helper: removed by an `is not None` test
         if isinstance(e, ast.NamedExpr):
-            return self.int_lb(fi, e.value, node, st)
+            return self.int_alts(fi, e.value, node, st)
         if isinstance(e, ast.BinOp) and isinstance(e.op, (ast.Add, ast.Sub)):
-            a = self.int_lb(fi, e.left, node, st)
+            la = self.int_alts(fi, e.left, node, st)
+            if any(v is NONE for v, _ in la):
+                return unknown
             if isinstance(e.op, ast.Add):
-                b = self.int_lb(fi, e.right, node, st)
-                return None if a is None or b is None else min(INF, a + b)
-            cr = const_int(e.right)
-            return None if a is None or cr is None else (a - cr if a < INF else INF)
+                ra = self.int_alts(fi, e.right, node, st)
+            else:
+                cr = const_int(e.right)
+                if cr is None:
+                    return unknown
+                ra = [(-cr, True)]
+            if any(v is NONE for v, _ in ra):
+                return unknown
+            return [(None if a is None or b is None else (INF if a >= INF or b >= INF else a + b), ea and eb) for a, ea in la for b, eb in ra]
         if isinstance(e, ast.IfExp):
-            a, b = self.int_lb(fi, e.body, node, st), self.int_lb(fi, e.orelse, node, st)
-            return None if a is None or b is None else min(a, b)
+            return self.int_alts(fi, e.body, node, st) + self.int_alts(fi, e.orelse, node, st)
         if isinstance(e, ast.Call):
             d = dotted(e.func)
             if d == "len" and len(e.args) == 1:
-                return self.minlen(fi, e.args[0], node, (), St(st.cs, frozenset(), st.hops))
+                return [(self.minlen(fi, e.args[0], node, (), St(st.cs, frozenset(), st.hops)), False)]
             if d in ("max",) and e.args and not e.keywords:
                 ks = [self.int_lb(fi, a, node, st) for a in e.args]
                 ks = [k for k in ks if k is not None]
-                return max(ks) if ks else None
+                return [(max(ks), False)] if ks else unknown
             if d in ("min",) and e.args and not e.keywords:
                 ks = [self.int_lb(fi, a, node, st) for a in e.args]
-                return None if any(k is None for k in ks) else min(ks)
+                return unknown if any(k is None for k in ks) else [(min(ks), False)]
             if isinstance(e.func, ast.Attribute):
                 m = e.func.attr
                 if m in ("find", "rfind"):
-                    return -1
+                    return [(-1, True), (0, False)]
                 if m in ("index", "rindex", "count"):
-                    return 0
+                    return [(0, False)]
                 if m in ("start", "end") and not e.args and self.regex_of_match(fi, e.func.value, node, st) is not None:
-                    return 0
+                    return [(0, False)]
             gs = self.resolve_callee(fi, e)
             if gs:
-                vals = []
+                out: list[tuple[int | None, bool]] = []
                 for g in gs:
                     if any(isinstance(x, (ast.Yield, ast.YieldFrom)) for x in walk_no_nested(g.node)):
-                        return None
+                        return unknown
                     st2 = st._replace(cs=st.cs + ((fi, e, g),))
                     if len(st2.cs) > 3:
-                        return None
+                        return unknown
                     rets = astq.returns_of(g.node)
                     if not rets:
-                        return None
+                        return unknown
                     for r in rets:
-                        vals.append(self.int_lb(g, r.value, cfg_of(g).node_of(r), st2) if r.value is not None else None)
-                return None if any(v is None for v in vals) else min(vals)
-            return None
+                        out += self.int_alts(g, r.value, cfg_of(g).node_of(r), st2) if r.value is not None else unknown
+                return out
+            return unknown
         if isinstance(e, ast.Name):
             if node is None:
-                return None
+                return unknown
             defs = self.rd(fi).reaching(node, e.id)
             if not defs:
-                return None
-            vals = []
+                return unknown
+            out = []
             for d_ in defs:
                 if d_.kind in ("assign", "walrus") and d_.index is None and d_.value is not None:
-                    vals.append(self.int_lb(fi, d_.value, d_.node, st))
+                    out += self.int_alts(fi, d_.value, d_.node, st)
                 elif d_.kind == "aug" and isinstance(d_.stmt, ast.AugAssign) and isinstance(d_.stmt.op, ast.Add):
                     inc = self.int_lb(fi, d_.value, d_.node, st)
                     prev = self.int_lb(fi, ast.Name(e.id, ast.Load()), d_.node, st) if inc is not None and inc >= 0 else None
-                    vals.append(None if prev is None or inc is None else (INF if prev >= INF else prev + inc))
+                    out.append((None if prev is None or inc is None else (INF if prev >= INF else prev + inc), False))
                 elif d_.kind == "param":
                     srcs = self.param_sources(fi, d_.name, st)
                     if srcs is None:
-                        vals.append(None)
+                        out += unknown
                     else:
                         for f2, x, n2, s2 in srcs:
-                            vals.append(self.int_lb(f2, x, n2, s2))
+                            out += self.int_alts(f2, x, n2, s2)
                 else:
-                    vals.append(None)
-            return None if any(v is None for v in vals) else min(vals)
-        return None
+                    out += unknown
+            return out
+        return unknown
 
-    def _guard_int(self, fi, e, node, v: int | None) -> int | None:
+    def _guard_alts(self, fi, e, node, alts: list[tuple[int | None, bool]]) -> list[tuple[int | None, bool]]:
+        """the alternatives that survive the conditions holding at node: `e >= c`, `e > c`, `e < c`, `e <= c`, `e == c`,
+        `e != c` in any spelling (canonical atoms), `if e` / `if not e` (an int is false exactly when it is 0)."""
         ks = self.keys(fi, e, node)
-        best = v
+
+        def at_least(c: int) -> t.Callable:
+            return lambda v, ex: ((v, ex) if v is not None and v >= c else None) if ex else ((c if v is None or v < c else v), False)
+
+        def at_most(c: int) -> t.Callable:
+            return lambda v, ex: ((v, ex) if v is not None and v <= c else None) if ex else (None if v is not None and c < v < INF else (v, False))
+
+        def equal(c: int) -> t.Callable:
+            return lambda v, ex: ((v, ex) if v == c else None) if ex else (None if v is not None and c < v < INF else (c, True))
+
+        def differs(c: int) -> t.Callable:
+            return lambda v, ex: (None if v == c else (v, ex)) if ex else ((v + 1, False) if v == c else (v, False))
+
         for at in self.atoms(fi, node):
-            cand = None
+            fn = None
+            if at.op == "is" and norm(at.a) in ks and astq.is_none(at.b):
+                fn = (lambda v, ex: (v, ex) if v is NONE or v is None else None) if at.truth else (lambda v, ex: None if v is NONE else (v, ex))
+                if self.fresh(fi, at, node):
+                    alts = [r for r in (fn(v, ex) for v, ex in alts) if r is not None]
+                continue
             if at.op == "lt":
-                if norm(at.a) in ks and const_int(at.b) is not None and not at.truth:
-                    cand = const_int(at.b)
-                elif const_int(at.a) is not None and norm(at.b) in ks and at.truth:
-                    cand = const_int(at.a) + 1
+                if norm(at.a) in ks and const_int(at.b) is not None:
+                    fn = at_most(const_int(at.b) - 1) if at.truth else at_least(const_int(at.b))
+                elif const_int(at.a) is not None and norm(at.b) in ks:
+                    fn = at_least(const_int(at.a) + 1) if at.truth else at_most(const_int(at.a))
             elif at.op == "eq":
                 for x, y in ((at.a, at.b), (at.b, at.a)):
                     if norm(x) in ks and const_int(y) is not None:
-                        if at.truth:
-                            cand = const_int(y)
-                        elif best is not None and best == const_int(y):
-                            cand = best + 1
-            if cand is not None and (best is None or cand > best) and self.fresh(fi, at, node):
-                best = cand
-        return best
+                        fn = equal(const_int(y)) if at.truth else differs(const_int(y))
+            elif at.op == "truthy" and norm(at.a) in ks:
+                fn = differs(0) if at.truth else equal(0)
+            if fn is None or not self.fresh(fi, at, node):
+                continue
+            if at.op == "eq" and not at.truth:
+                keep_none = True  # None != c
+            elif at.op == "truthy" and not at.truth:
+                keep_none = True  # `not e` holds for None as well
+            else:
+                keep_none = False
+            alts = [r for r in ((((v, ex) if keep_none else None) if v is NONE else fn(v, ex)) for v, ex in alts) if r is not None]
+        return alts
 
     # -- integers parsed from client text, without an upper bound ---------------------
     def unbounded_client_int(self, fi: FuncInfo, e: ast.AST | None, node, st: St = St()) -> bool:
@@ -3056,8 +3163,14 @@ class PathSim:
         elif what == "group" and (not args or args == [0]):
             st.null[tv] = False
             st.wm[tv] = mv
-            st.add(ZERO, st.lenvar(tv), -minw)
-            if minw >= 1:
+            adv = minw
+            if adv == 0 and needs_end and ls is not None and method in ("match", "fullmatch"):
+                # the whole match of an anchored attempt is as long as the distance its end() moves: an empty match
+                # needs the end of the text at the position tried, and that position is in front of the end
+                if (st.entails(pos[0], ls, -pos[1], True) if pos is not None else st.entails(ZERO, ls, -1)):
+                    adv = 1
+            st.add(ZERO, st.lenvar(tv), -adv)
+            if adv >= 1:
                 st.truth[tv] = True
         elif what in ("end", "start", "span"):
             st.null[tv] = False
@@ -3084,6 +3197,9 @@ class PathSim:
                     lb = 0
                 finally:
                     self.flow.cur, self.flow.site_ast = save_cur, save_sa
+            av = self.var_of(fi, st, e.args[0])
+            if av is not None and av not in st.tup and not isinstance(e.args[0], ast.NamedExpr):
+                st.lenvar(av)  # the length of a local is a value of its own: created before the copy so that both stay related
             for s in self.eval(fi, st, e.args[0], t1):
                 l1 = s.lenvar(t1)
                 s.null[tv] = False
@@ -3248,6 +3364,16 @@ class PathSim:
                 s.ints.add(tv)
                 s.add(ZERO, tv, 1 if m in ("find", "rfind") else 0)
                 s.add(tv, s.lenvar(t1), 0)
+                start = self.operand(fi, s, e.args[1]) if len(e.args) >= 2 and m != "count" else None
+                if start is not None and s.entails(ZERO, start[0], start[1]):
+                    # a search from a position >= 0: the hit is not in front of that position (or there is no hit: -1)
+                    if m in ("find", "rfind"):
+                        miss = s.copy()
+                        if miss.add(tv, ZERO, -1):
+                            miss.kill(t1)
+                            out.append(miss)
+                    if not (s.add(ZERO, tv, 0) and s.add(start[0], tv, -start[1])):
+                        continue
                 s.kill(t1)
                 out.append(s)
             return out
